@@ -72,8 +72,16 @@ def res(out):
     return ("err", k)
 
 
-def same(a, b):
-    return a == b
+def balanced(run, lines, shards=8):
+    """vlib shards a batch into contiguous slices; the slow cases (numbers with extreme exponents) come
+    in runs, so deal the lines round-robin over the slices and put the answers back in order"""
+    n = len(lines)
+    order = sorted(range(n), key=lambda i: (i % shards, i))
+    out = run([lines[i] for i in order])
+    res = [None] * n
+    for i, o in zip(order, out):
+        res[i] = o
+    return res
 
 
 # ------------------------------------------------------------------------------------------------
@@ -760,8 +768,8 @@ def run(c):
 
     texts = [t for _, t in cases]
     go = [res(o) for o in run_go([line(t) for t in texts])]
-    md = [res(o) for o in run_oracle([line(t, flags) for t in texts])]
-    mf = md if flags == FIXED else [res(o) for o in run_oracle([line(t, FIXED) for t in texts])]
+    md = [res(o) for o in balanced(run_oracle, [line(t, flags) for t in texts])]
+    mf = md if flags == FIXED else [res(o) for o in balanced(run_oracle, [line(t, FIXED) for t in texts])]
 
     # idempotence: canonicalise Go's outputs again
     outs = sorted({g[1] for g in go if g[0] == "ok"})
